@@ -126,3 +126,33 @@ Proof.
     destruct (verify_dns_length s true); reflexivity.
 Qed.
 End Config.
+
+(* ---- the output clause at every entry point ---- *)
+Definition out_ok (deny : N) (r : list N) : Prop :=
+  Forall (fun c => c < 128 /\ is_upper c = false /\ deny_member deny c = false) r.
+
+Lemma deny_empty_valid : valid_deny DENY_EMPTY.
+Proof. right. exists T_IDNA_EMPTY_GLYPHLESS, T_IDNA_EMPTY_LIST. reflexivity. Qed.
+
+Theorem entry_points_output A cfg : NvNoTrunc A ->
+  (forall d deny b r, bytes d -> valid_deny deny -> domain_to_ascii_cow A cfg d deny = Ok (b, r) -> out_ok deny r) /\
+  (forall s r, usv_list s -> domain_to_ascii A cfg s = Ok r -> out_ok DENY_EMPTY r) /\
+  (forall s r, usv_list s -> domain_to_ascii_strict A cfg s = Ok r -> out_ok DENY_STD3 r) /\
+  (forall c s r, usv_list s -> config_to_ascii A cfg c s = Ok r -> out_ok (config_deny_list c) r).
+Proof.
+  intros HN. repeat split.
+  - intros d deny b r Hb Hv H. exact (to_ascii_output A cfg d deny HAllow DIgnore b r HN Hb Hv H).
+  - intros s r Hs H. unfold domain_to_ascii, domain_to_ascii_cow in H.
+    destruct (to_ascii A cfg (utf8_encode s) DENY_EMPTY HAllow DIgnore) as [[b r0]| |p] eqn:E; try discriminate.
+    inversion H. subst r0.
+    exact (to_ascii_output A cfg _ _ _ _ b r HN (utf8_encode_bytes s Hs) deny_empty_valid E).
+  - intros s r Hs H. unfold domain_to_ascii_strict in H.
+    destruct (to_ascii A cfg (utf8_encode s) DENY_STD3 HCheck DVerify) as [[b r0]| |p] eqn:E; try discriminate.
+    inversion H. subst r0.
+    exact (to_ascii_output A cfg _ _ _ _ b r HN (utf8_encode_bytes s Hs) (or_introl eq_refl) E).
+  - intros c s r Hs H. rewrite (config_to_ascii_agrees A cfg c s HN Hs) in H.
+    match type of H with match ?t with _ => _ end = _ => destruct t as [[b r0]| |p] eqn:E end; try discriminate.
+    inversion H. subst r0.
+    exact (to_ascii_output A cfg _ _ _ _ b r HN
+             (utf8_encode_bytes _ (map_transitional_usv s _ Hs)) (config_deny_valid c) E).
+Qed.
